@@ -17,6 +17,7 @@ mod c14;
 mod c20;
 mod c12;
 mod c10;
+mod c06;
 mod c04;
 mod c17;
 mod c05;
@@ -53,6 +54,7 @@ fn main() {
         "C15" => cworld::cases_c15(&mut rng, count, tier),
         "C04" => c04::cases(&mut rng, count, tier),
         "C05" => c05::cases(&mut rng, count, tier),
+        "C06" => c06::cases(&mut rng, count, tier),
         "C07" => cbin::cases_c07(&mut rng, count, tier),
         "C08" => cbin::cases_c08(&mut rng, count, tier),
         "C16" => cworld::cases_c16(&mut rng, count, tier),
